@@ -38,7 +38,9 @@ Record case := {
   full_signer : N;
   start_ok : bool;
   host_pid : bytes;
-  host_addr : option bytes
+  host_addr : option bytes;
+  conc_n : N;                     (* derivations of peer-id addresses made from concurrent goroutines (0: class not run) *)
+  conc_wrong : N                  (* ... how many of them differed from the sequential answer (or panicked) *)
 }.
 
 Definition opt_bytes_eqb (a b : option bytes) : bool :=
@@ -75,7 +77,7 @@ Definition full_signer_obs (c : case) : option signer_obs := find (fun s => s_ki
 Definition agrees (c : case) : bool :=
   let r := ref_addr c in
   let mnow := model_addr_now c (d c) in
-  wiring_ok &&
+  wiring_ok && (conc_wrong c =? 0) &&
   bytes_eqb (pad32 (min_be (d c))) (pad_obs c) &&
   Bool.eqb (unmarshal_ok c) (match unmarshal_priv (pad_obs c) with Some _ => true | None => false end) &&
   bytes_eqb (peerid (comp c)) (pid_obs c) &&
@@ -109,6 +111,7 @@ Definition violation (c : case) : option string :=
   then Some "cannot-start"%string
   else if negb (opt_bytes_eqb (addr_pid_obs c) (Some (addr_pub_obs c))) then Some "address-differs"%string
   else if existsb signer_differs (signers c) then Some "address-differs"%string
+  else if negb (conc_wrong c =? 0) then Some "address-differs"%string   (* one key, one address - also under concurrency *)
   else if full c && negb (match full_signer_obs c with
                           | Some s => opt_bytes_eqb (host_addr c) (Some (s_addr s))
                           | None => true
